@@ -1,6 +1,7 @@
 import Revm.Util.Hex
 import Revm.Model.Evm
 import Revm.Spec.Evm
+import Revm.Spec.EvmStrict
 /-! Line-protocol driver of component `evm` (C01): whole transactions on `Revm.Model.Evm.transact`.
 
 * `begin evm <spec> <hs> <chainid> <number> <coinbase> <timestamp> <gaslimit> <basefee> <difficulty> <prevrandao|-> <blobgasprice|-> <limit|->`
@@ -10,7 +11,10 @@ import Revm.Spec.Evm
   non-executable core; class 0 ok, 1 out of gas, 2 error, 3 fatal)
 * `evm tx <caller> <gaslimit> <gasprice> <to|-> <value> <data|-> <nonce|-> <chainid|-> <prio|-> <blobhashes h,h|-> <maxblobfee|-> <accesslist a:k,k;a:|-> <authlist -|e|chain:addr:nonce:authority|x;…>`
   → `reject` | `<class> gas=<used> refund=<refunded> out=<hex|-> created=<addr|-> logs=<…> ;; <post-state>` | `panic` …,
-  followed by ` | spec=<the same line computed by Spec.Evm.transact>` (state kept by snapshots instead of a journal)
+  followed by ` | spec=<the same line computed by Spec.Evm.transact>` (state kept by snapshots instead of a journal).
+  The hypothesis of the refinement theorem (Props/C01 `transact_refines_spec_partial`: the run is admissible, i.e. the
+  strict journal machine `Spec.Evm.transactStrict` gives the same reply) is evaluated on every generated / boundary
+  transaction and on every third reference-vector replay; should it ever fail, the model's reply carries the mark ` !inadmissible-run` and the line is a mismatch.
   `logs`: `<n>[<addr>:<topic,topic|->:<data|->]…` when short, else `<n>#<keccak of the canonical encoding>`;
   post-state: the touched accounts sorted by address, `<addr>:<c?s?>:<balance>:<nonce>:<codehash>:<k=v,…|->` (changed slots).
 * `evm vector <relative path> <unit index> <fork> <post index>` → `pass`: the expectation that the implementation
@@ -25,6 +29,8 @@ structure St where
   dbHasStorage : Bool := true
   pre : List PreAcct := []
   pcs : List PcAnswer := []
+  /-- the unit index of the reference vector being replayed (`none`: a generated / boundary case) -/
+  vec : Option Nat := none
 
 def St.init : St := {}
 
@@ -149,6 +155,10 @@ def runTx (st : St) (tx : Tx) : String :=
   let e := { st.env with tx := tx }
   let m := replyOf (transact FUEL w e st.spec)
   let sp := replyOf (Spec.Evm.transact FUEL w e st.spec)
+  -- the admissibility hypothesis of the refinement theorem, checked on this very run
+  -- (every generated / boundary transaction; of the reference-vector replays, which dominate the run time, one in three)
+  let doStrict := match st.vec with | none => true | some i => i % 3 == 0
+  let m := if !doStrict || replyOf (Spec.Evm.transactStrict FUEL w e st.spec) == m then m else m ++ " !inadmissible-run"
   s!"{m} | spec={sp}"
 
 def handle (st : St) (toks : List String) : St × String :=
@@ -167,7 +177,7 @@ def handle (st : St) (toks : List String) : St × String :=
        "ok")
     | _, _, _, _, _, _ => (st, "bad-op")
   -- a reference vector: the expectation is that the implementation passes it
-  | ["vector", _, _, _, _] => (st, "pass")
+  | ["vector", _, idx, _, _] => ({ st with vec := some (idx.toNat?.getD 0) }, "pass")
   | "tx" :: rest =>
     match parseTx rest with
     | some tx => (st, runTx st tx)
